@@ -114,6 +114,7 @@ PROPS["C03"] = {
 }
 PROPS["C04"] = {
     "lean_module": "LispModel.Props.C04",
+    "tie_modules": ["LispModel.Tie.Recovers"],
     "engines": [{"name": "malformed", "quick": 400, "thorough": 20000},
                 {"name": "nopanic", "quick": 2000, "thorough": 100000}],
     "violation_if": {"malformed": r"^(PANIC|HANG)", "nopanic": r"^(PANIC|HANG)"},
